@@ -224,7 +224,9 @@ func c19Eval(name, src string) *Case {
 	return c
 }
 
-var c19AttrVals = []string{`v`, `a b`, `say &quot;hi&quot;`, `it&#39;s`, `a &amp; b`, `x &amp;&amp; y`, `n &lt; 3`, `n > 2 &amp;&amp; m < 4`, "line1\nline2", `  padded  `, `{{ a < b }}`, `{{ x | f("q") }}`, `{"id":123}`, `a&b`, `&copy;`, `x=1&amp;y=2`, `'single'`, `a;b`}
+var c19AttrVals = []string{`v`, `a b`, `say &quot;hi&quot;`, `it&#39;s`, `a &amp; b`, `x &amp;&amp; y`, `n &lt; 3`, `n > 2 &amp;&amp; m < 4`, "line1\nline2", `  padded  `, `{{ a < b }}`, `{{ x | f("q") }}`, `{"id":123}`, `a&b`, `&copy;`, `x=1&amp;y=2`, `'single'`, `a;b`,
+	// characters whose UTF-8 encoding contains bytes that are white space when read as Latin-1 (0x85, 0xA0): a value is text, not bytes
+	"10\u00a0km", `10&nbsp;km`, "Voilà, déjà vu", "Århus – Ålborg", "✅ done", "日本語 テキスト", "x\u2003y"}
 
 func (g *srcGen) c19Attrs() string {
 	var sb strings.Builder
